@@ -622,6 +622,7 @@ func init() {
 		st := (*a[0].(*value)).(structure)
 		fr.m.block(fr, "sync.Mutex.Lock", func() bool { return st[0].(int32) == 0 })
 		st[0] = int32(1)
+		fr.m.raceAcquire(a[0].(*value))
 		return nil
 	})
 	reg("(*sync.Mutex).TryLock", func(fr *frame, a []value) value {
@@ -638,6 +639,7 @@ func init() {
 			panic(targetPanic{iface{types.Typ[types.String], "fatal error: sync: unlock of unlocked mutex"}})
 		}
 		st[0] = int32(0)
+		fr.m.raceRelease(a[0].(*value))
 		fr.m.yield(fr, "unlock")
 		return nil
 	})
@@ -692,18 +694,21 @@ func init() {
 	reg("(*sync.WaitGroup).Done", func(fr *frame, a []value) value {
 		cnt := fr.m.wgCount(a[0].(*value))
 		*cnt--
+		fr.m.raceRelease(a[0].(*value))
 		fr.m.yield(fr, "wg.Done")
 		return nil
 	})
 	reg("(*sync.WaitGroup).Wait", func(fr *frame, a []value) value {
 		cnt := fr.m.wgCount(a[0].(*value))
 		fr.m.block(fr, "sync.WaitGroup.Wait", func() bool { return *cnt <= 0 })
+		fr.m.raceAcquire(a[0].(*value))
 		return nil
 	})
 	atomicField := func(a []value) *value {
 		st := (*a[0].(*value)).(structure)
 		return &st[len(st)-1]
 	}
+	_ = atomicField
 	reg("(*sync/atomic.Uint64).Add", func(fr *frame, a []value) value {
 		p := atomicField(a)
 		*p = (*p).(uint64) + a[1].(uint64)
